@@ -460,6 +460,30 @@ static InstResult small_holders() {
 	InstResult r; r.name = "expected-void-try-eternal"; r.complete = true;
 	auto bad = [&](const std::string &sig, const std::string &msg) { r.add_violation({"C17", sig, msg}, sig); };
 	auto tick = [&] { r.evaluations++; r.distinct++; };
+	// Converting assignment optional<T> = optional<U> whose source is the FIRST member of the object the destination holds
+	// (it then sits at the destination's own address although it is another object of another type): the assignment must
+	// still take place, exactly as with std::optional.
+	{
+		struct Outer {
+			frg::optional<int> pending; int committed;
+			Outer(int v) : committed(v) {}
+			Outer &operator=(int v) { committed = v; return *this; }
+		};
+		struct OuterStd {
+			std::optional<int> pending; int committed;
+			OuterStd(int v) : committed(v) {}
+			OuterStd &operator=(int v) { committed = v; return *this; }
+		};
+		for(int form = 0; form < 2; form++) for(int engaged = 0; engaged < 2; engaged++) {
+			tick();
+			frg::optional<Outer> o; o.emplace(1); std::optional<OuterStd> so; so.emplace(1);
+			if(engaged) { o->pending = frg::optional<int>(42); so->pending = 42; }
+			if((const void *)&o->pending != (const void *)&o) continue;   // (layout changed: the case no longer exists)
+			if(form == 0) { o = o->pending; so = so->pending; } else { o = std::move(o->pending); so = std::move(so->pending); }
+			if(bool(o) != so.has_value() || (o && o->committed != so->committed))
+				bad("optional:converting-assign-from-own-first-member", std::string("optional<T> = ") + (form ? "move(" : "") + "held.first_member" + (form ? ")" : "") + " (an " + (engaged ? "engaged" : "empty") + " optional<U>): engaged/value differ from std::optional");
+		}
+	}
 	tick();
 	if(!g_static_box.valid() || *g_static_box != 42 || !g_static_box2.valid() || g_static_box2->first != 7 || g_static_box2->second != 9)
 		bad("manual_box:static-initialisation", "a manual_box with static storage duration that was initialised during static initialisation (by an earlier object of the same translation unit) is empty or holds another value when main() runs");
